@@ -1456,8 +1456,11 @@ impl Sim {
                 self.log(format!("n{} CRASH at {:?}", self.nodes[*v].id, st));
                 self.mon.note_crash_point(st);
                 let app = self.nodes[*v].store.with(|s| (s.vol.applied, s.vol.sm, s.vol.conf.clone()));
+                // entries applied beyond what the library had seen persisted: only possible with
+                // apply-before-persist (max_apply_unpersisted_log_limit > 0 on a leader)
+                let lib_persisted = self.nodes[*v].raw.as_ref().map(|r| r.raft.raft_log.persisted).unwrap_or(u64::MAX);
                 self.kill(*v);
-                if self.app_state_always_durable {
+                if self.app_state_always_durable && app.0 > lib_persisted {
                     let ahead = self.nodes[*v].store.with_mut(|s| {
                         if app.0 > s.dur.applied && app.0 > s.dur.last_index() {
                             s.dur.applied = app.0;
